@@ -68,6 +68,11 @@ claimed = {
   note="TSDBStore and meta client are stubs; the write-time cut-off is checked by C08",
   technique=SIM + ": testing/synctest fake clock driving the real service loop, expiry predicate restated in the harness, injected errors",
   ref="3 C17"),
+ "C05": dict(
+  text="A cluster of 2-4 real data nodes (real tsdb.Store, coordinator.Service behind the real tcp.Mux, MetaExecutor, ClusterShardMapper, query.Executor, meta.Client over a generated meta.Data) on the simulated network; replication 1-n, 1-3 shard groups, 0-4 owner copies/removals, 1-40 points placed on every owner; a drawn coordinator executes 1-5 statements (raw/aggregate/grouped/time-bounded SELECT, SHOW metadata lookups, EXPLAIN) while every other node has one fault kind: down, refuses, slow+fragmented, stalls, resets at request time, resets or closes cleanly mid-stream, answers with an error, is up with disabled shards. Oracle: the same statement on a single-node reference holding the union of the data; success must equal it, a failure is only allowed when a shard has no healthy reachable owner or a fault hit mid-stream; a statement must return within 2 simulated minutes.",
+  note="meta.Data is generated and installed in every node's meta client (no raft traffic); hinted handoff is stubbed off; storage reads (ReadFilter/ReadGroup of the storage service) are not driven; equal-timestamp rows of different series are compared as a multiset; six shapes of silently incomplete success are listed known findings (clean close mid-stream, faulty owner answering type/metadata lookups as empty, metadata lookups ignoring node errors, unknown field type when the sole owner is unreachable); residual nondeterminism of the Go runtime (map iteration, select) means a replay is attempted up to 12 times",
+  technique=SIM + ": in-process cluster on a simulated network with per-connection fault policies, reference-cluster comparison, fake clock for timeouts",
+  ref="3 C05"),
  "C18": dict(
   text="A source store built by a seeded history (cache, files, tombstones, un-snapshotted cache) is backed up in full on the still open store (one run in three with an acknowledged write parked inside the backup's own cache snapshot), the stream restored with RestoreShard into a fresh store - the path a shard copy takes - and compared through both read paths, also after a restart of the destination; the source must be unchanged; 0-6 cuts of the stream (tar block boundaries, before the trailer, random offsets) are offered to RestoreShard and must not yield a 'successful' incomplete shard; a time-bounded export/import is compared with the model restricted to the range.",
   note="the network between source and destination is a buffer cut at seeded offsets; coordinator.Service's CopyShard RPC and the meta handler adding the owner are not run; incremental (since) backups are not explored (file mtimes are real time, the simulation clock is fake); truncated-stream acceptance and the broken time-bounded export are listed known findings",
